@@ -212,8 +212,10 @@ class C06(Prop):
                   "theorems assume each operator yields as many rows as set_equation was told "
                   "(set_equation does not check this; mismatching operators are in the tie only). "
                   "Name string and Operator object as equation reference are not distinguished "
-                  "(the code resolves both to the name first). The `state` argument of assemble is exercised with "
-                  "the stored values only (one evaluation table per case). Not modelled: "
+                  "(the code resolves both to the name first). The `state` argument of assemble is exercised per case: "
+                  "either the stored values, or (30% of the cases) a different vector handed to "
+                  "every assemble / Schur call, the operators being evaluated at that vector "
+                  "(one evaluation table per case). Not modelled: "
                   "TypeError for unparsable items, SubSystem.")
     technique = ("Coq proof (invariant over operation histories + refinement of the parser to a "
                  "last-mention specification) + vm_compute execution correspondence")
@@ -225,7 +227,9 @@ class C06(Prop):
             "restrictions as list / dict / list with dict items, repeated and overriding "
             "mentions, empty selections, Operator objects as keys, variable subsets (objects, "
             "names, md-variables, duplicates, empty), residual-only calls, calls with an explicit state vector (overwritten afterwards); "
-            "update_equation with default / new grids and size info, unknown names and grids "
+            "update_equation with default / new grids and size info (directed: grids omitted and "
+            "another number of rows per grid entity, followed by assemblies restricted to a "
+            "subset of the equation's grids), unknown names and grids "
             "outside the md-grid (equation lost); Schur assemblies with an all-zero inverter "
             "whose primary variables are searched such that the secondary block is square, "
             "assembled_equation_indices read after every call; error inputs (unknown "
@@ -427,12 +431,18 @@ class C06(Prop):
                         kind = g0[0][0] if g0 else ("intf" if intfs and rng.random() < 0.3 else "sd")
                         ng = len(intfs) if kind == "intf" else len(sds)
                         newg, newi = g0, list(i0)
-                        if rng.random() < 0.5:
+                        directed = len(g0) >= 2 and rng.random() < 0.5
+                        if directed:
+                            # grids omitted, another number of rows per grid entity; followed
+                            # below by assemblies restricted to a subset of the (old) grids
+                            info = [rng.choice([c for c in (1, 2, 3) if c != i0[0]]), 0, 0]
+                            newi = info
+                        elif rng.random() < 0.5:
                             grids = [[kind, i] for i in rng.sample(range(ng), rng.randint(0, ng))]
                             if rng.random() < 0.08:
                                 grids.append([kind, ng + 1])       # not in the md-grid
                             newg = grids
-                        if rng.random() < 0.4:
+                        if not directed and rng.random() < 0.4:
                             info = [rng.choice([0, 1, 1, 2]), 0, 0]
                             newi = info
                         okg = [g for g in newg if g[1] < ng]
@@ -452,6 +462,19 @@ class C06(Prop):
                         if valid:
                             sh.eqs[name] = (len(operators) - 1, newg, tuple(newi))
                     dirty = True
+                    if known and valid and directed:
+                        ops.append(["asm", True, None, None])
+                        dirty = False
+                        dom = [list(t) for t in sorted({tuple(g) for g in newg})]
+                        for _j in range(rng.randint(1, 2)):
+                            sub = rng.sample(dom, rng.randint(1, len(dom) - 1))
+                            others = [n for n in sh.eqs if n != name]
+                            if others and rng.random() < 0.5:
+                                arg = ["list", [["name", rng.choice(others), False],
+                                                ["dict", [[name, rng.random() < 0.3, sub]]]]]
+                            else:
+                                arg = ["dict", [[name, rng.random() < 0.3, sub]]]
+                            ops.append(["asm", rng.random() < 0.8, arg, self._vrefs(rng, lay)])
                 elif r < 0.54 and sh.eqs and not mismatch:
                     ops.append(self._schur_op(rng, sh, lay))
                 else:
@@ -462,8 +485,14 @@ class C06(Prop):
                     ops.append(["asm", rng.random() < 0.75, self._eqarg(rng, sh, bad),
                                 self._vrefs(rng, lay, stale)]
                                + ([True] if rng.random() < 0.25 else []))   # state= given
-            yield {"grid": spec, "sds": sds, "intfs": intfs, "vars": vars_, "junk": junk,
-                   "state": state, "operators": operators, "ops": ops}
+            case = {"grid": spec, "sds": sds, "intfs": intfs, "vars": vars_, "junk": junk,
+                    "state": state, "operators": operators, "ops": ops}
+            if rng.random() < 0.3:
+                # every assemble / Schur call gets an explicit state that differs from the
+                # stored values; the operators are evaluated at that state
+                case["state2"] = [x + rng.choice([-2, -1, 1, 2]) if rng.random() < 0.7 else x
+                                  for x in state]
+            yield case
 
     # ------------------------------------------------------------------ implementation
     def _build(self, case):
@@ -548,9 +577,11 @@ class C06(Prop):
 
         # every operator is evaluated once: the model's input
         evals, exprs = [], []
+        s2 = case.get("state2")
         for spec in case["operators"]:
             e = self._expr(es, created, spec)
-            ad = es.evaluate(e, derivative=True)
+            ad = es.evaluate(e, derivative=True, state=(
+                None if s2 is None else np.array(s2, dtype=float)))
             assert ad.jac.shape == (spec["rows"], nd) and ad.val.shape == (spec["rows"],)
             evals.append([self._sparse_rows(ad.jac), self._ints(ad.val)])
             exprs.append(e)
@@ -627,15 +658,17 @@ class C06(Prop):
                     outs.append([["done"], indices()])
                 elif o[0] == "schur":
                     es.assemble_schur_complement_system(
-                        eqarg(o[1]), vrefs(o[2]), inverter=lambda M: sps.csr_matrix(M.shape))
+                        eqarg(o[1]), vrefs(o[2]), inverter=lambda M: sps.csr_matrix(M.shape),
+                        state=None if s2 is None else np.array(s2, dtype=float))
                     outs.append([["done"], indices()])
                 else:
                     _, jac, a, refs = o[:4]
                     kw = {}
-                    if len(o) > 4 and o[4]:
-                        # the state vector handed over explicitly (same values as stored);
-                        # overwritten afterwards (aliasing probe)
-                        st_arr = np.array(case["state"], dtype=float)
+                    if s2 is not None or (len(o) > 4 and o[4]):
+                        # the state vector handed over explicitly (the stored values, or in
+                        # state2-cases a different vector); overwritten afterwards (aliasing
+                        # probe)
+                        st_arr = np.array(case["state"] if s2 is None else s2, dtype=float)
                         kw = {"state": st_arr}
                     if jac:
                         A, b = es.assemble(equations=eqarg(a), variables=vrefs(refs), **kw)
